@@ -15,6 +15,7 @@ static int64_t g_canary_broken = 0;
 
 void Monitor::reset_run() {
     illegal_count = error_count = 0;
+    for (auto &x : illegal_by_task) x = 0;
     last_illegal.clear(); last_error.clear();
     api_depth = 0; cur_task = -1;
     mallocs_in_api = frees_in_api = malloc_total = 0;
@@ -43,6 +44,7 @@ int check01(int v, const char *where) {
 
 void counting_illegal_cb(const char *msg, void *) {
     g_mon.illegal_count++;
+    { int k = g_mon.cur_task + 1; if (k >= 0 && k < 40) g_mon.illegal_by_task[k]++; }
     g_mon.last_illegal = msg ? msg : "";
 }
 void counting_error_cb(const char *msg, void *) {
